@@ -66,7 +66,9 @@ def evaluate(cfg):
             break
     # carry-over between consecutive simulated days
     th_init = tr.th_before_a[0]
-    fm = m._param_struct.FieldMngt
+    from .common import FMView
+
+    fm = FMView(cfg.get("fm"))   # as configured by the user
     ss_init_season = min(float(fm.bund_water), float(fm.z_bund)) if bunds_effective(fm) else 0.0
     off = bool(m._clock_struct.sim_off_season)
     resets = 0
